@@ -252,6 +252,7 @@ class AbsExec:
         self.qual = qual
         self.hooks = hooks or {}
         self.helpers = helpers or {}  # name -> FunctionInfo of in-package helper methods that may be interpreted when called on cls / self
+        self.properties: dict[tuple[str, str], tuple[Any, Any]] = {}  # (class of the model object, attribute) -> (getter, setter) FunctionInfo
         self.steps = 0
 
     # ------------------------------------------------------------------ helpers
@@ -582,6 +583,11 @@ class AbsExec:
             if name in d:
                 return d[name]
             return ("bound", v, name)
+        if isinstance(v, MObj) and (v.cls, name) in self.properties and name not in v.fields:
+            getter = self.properties[(v.cls, name)][0]
+            if getter is not None:
+                node = getter.analysis_node
+                return self.call_closure(Closure(node, {}), [v], {}, e)
         if isinstance(v, MObj):
             if name == "__dict__":
                 return v.fields
@@ -596,6 +602,8 @@ class AbsExec:
             return ("bound", v, name)
         if isinstance(v, tuple) and v and v[0] in ("class",):
             return ("class-attr", v[1], name)
+        if f"method:{name}" in self.hooks:
+            return ("bound", v, name)  # a method of a model object supplied by the rule
         raise self.unknown(e, f"attribute of {type(v).__name__}")
 
     def call(self, e: ast.Call, env: dict[str, Any]) -> Any:
@@ -915,7 +923,13 @@ class AbsExec:
                 raise Internal("AttributeError", f"`{unparse(target)}`: attribute store on None", target)
             if not isinstance(base, MObj):
                 raise self.unknown(target, "attribute store")
+            if (base.cls, target.attr) in self.properties and self.properties[(base.cls, target.attr)][1] is not None:
+                setter = self.properties[(base.cls, target.attr)][1]
+                self.call_closure(Closure(setter.analysis_node, {}), [base, v], {}, target)
+                return
             base.fields[target.attr] = v
+        elif isinstance(target, ast.Subscript) and "setitem" in self.hooks and not isinstance(self.ev(target.value, env), (list, dict)):
+            self.hooks["setitem"](self, target, self.ev(target.value, env), self.ev(target.slice, env), v)
         elif isinstance(target, ast.Subscript):
             base = self.ev(target.value, env)
             idx = self.ev(target.slice, env)
@@ -1038,6 +1052,13 @@ class AbsExec:
                 # the finally block runs on every way out (normal, exception, return, break, continue)
                 if s.finalbody:
                     self.block(s.finalbody, env)
+        elif isinstance(s, ast.With):
+            for item in s.items:
+                ctx = self.ev(item.context_expr, env)
+                entered = self.hooks["enter"](self, item.context_expr, ctx) if "enter" in self.hooks else ctx
+                if item.optional_vars is not None:
+                    self.bind(item.optional_vars, entered, env)
+            self.block(s.body, env)  # (context managers of the models have no effect on exit)
         elif isinstance(s, ast.Assert):
             if not self.truth(self.ev(s.test, env), s.test):
                 raise Raised("AssertionError", s)
